@@ -21,6 +21,13 @@ def classify(tid, clause, case):
     """D22 (known finding): at arity >= 3 a conflict between annotated contributors is forgotten by the fold -- the
     result carries the annotation of a later contributor although the annotated contributors do not all agree.
     The key applies only when EVERY mis-annotated result parameter has exactly that shape."""
+    if clause == 'C10_UpgradedAnnotationDiffersFromAnnotation' and case and ('-class/' in tid or '-instance/' in tid):
+        # known finding: a signature read from an object without code of its own (a class, a callable instance) carries its annotations only in
+        # the plain .annotation; the upgraded annotation is empty.  The key applies only when EVERY upgraded annotation of the result is empty
+        out = case.get('out') or {}
+        if out.get('tag') == 'sig' and not any(out.get('uan') or [1]):
+            return 'no-code-carrier-upgraded-annotation-empty'
+        return clause
     if clause != 'C10_Annotation' or not case or case.get('op') != 'merge' or len(case.get('ins', ())) < 3:
         return clause
     out = case.get('out') or {}
@@ -98,6 +105,13 @@ def run(check, tier, seed, scratch):
             alggen.mask_events(u2, UM2, hide='none', maxnames=1) if not quick else alggen.mask_events(Universe(UM2[::12]), UM2[::12], tag='mask2m', hide='none', maxnames=1),
             alggen.forwards_events(uo, UO, u1, UM1, sample=0.03 if quick else 0.5, seed=seed),
             c19.partial_events(Universe(UM2[::9] if quick else UM2), UM2[::9] if quick else UM2, 1, sample=0.3 if quick else 0.5, seed=seed)]
+    # the same rules when the default objects of the inputs are equal but not identical (functions compiled separately), and when the signatures
+    # are read from objects without code of their own (a class's constructor, a callable instance)
+    UMs = UM2[::7] if quick else UM2
+    for mode in ('fresh', 'class', 'instance'):
+        um = Universe(UMs, mode=mode)
+        gens.append(alggen.merge_tuples(um, UMs, alggen.random_tuples(n2 // 5, len(UMs), 2, seed + 7), tag='merge2-' + mode))
+        gens.append(alggen.embed_tuples(um, UMs, alggen.random_tuples(n2 // 10, len(UMs), 2, seed + 8), tag='embed2-' + mode))
     for op in ('merge', 'embed', 'mask'):
         gens.append(alggen.cex_events(cu, op, [c for o, c in cex if o == op], tag='modelcex-' + op))
     run_trace_leg(check, scratch, 'metadata', alggen.chain(*gens), WANT, classify=classify)
